@@ -41,7 +41,7 @@ ASSUMPTIONS = [
     "the chunk boundaries of the application, must be preserved; every "
     "presented chunk is 1..22 bytes",
 ]
-EXAMPLES = {"quick": 150, "thorough": 3000}
+EXAMPLES = {"quick": 150, "thorough": 10000}
 MIN_NONTRIVIAL = {"quick": 300, "thorough": 5000}
 
 
